@@ -35,6 +35,7 @@ def check(ctx):
     fx = ctx.fx
     # ------------------------------------------------------------------ R10.1
     S.check_drain_before_release(ctx, "R10.1")
+    S.check_consume_asks_queue(ctx, "R10.1")      # the drain asks through the channel's own consume: its None must mean 'empty'
     ctx.floor("R10.1", 20)
     # ------------------------------------------------------------------ R10.2 create_stream_id
     k = SM + "::create_stream_id"
@@ -185,6 +186,9 @@ def check(ctx):
                 ctx.ob("R10.6", f"{f['key']}|rebuild-is-told-the-count-after-the-update", ok, cb_.loc(b),
                        f"rebuild called with `{det}`; a count derived from the RMW on used_streams_count must be its answer +1 (create) / -1 (drop)")
     ctx.floor("R10.6", 1)
+    # ------------------------------------------------------------------ R10.7 cursor discipline of the rebuild: no gap at the front, no stale tail
+    S.check_rebuild_cursor(ctx, "R10.7")
+    ctx.floor("R10.7", 2)
     # ------------------------------------------------------------------ R10.5 an end request never reaches the stream that later re-uses the id
     S.check_cancel_not_repeated(ctx, "R10.5")
     ctx.floor("R10.5", 1)
